@@ -4,6 +4,17 @@ use std::time::Duration;
 use coarsetime::Instant;
 
 use crate::network::{Coord, NetworkMessage, NetworkSender};
+
+/// The clock of the batcher (a mock clock can be installed with the `verif` feature).
+#[cfg(not(feature = "verif"))]
+#[inline]
+fn clock() -> Instant {
+    Instant::now()
+}
+#[cfg(feature = "verif")]
+fn clock() -> Instant {
+    crate::verif::coarse_now()
+}
 use crate::operator::{ExchangeData, StreamElement};
 
 /// Which policy to use for batching the messages before sending them.
@@ -64,7 +75,7 @@ impl<Out: ExchangeData> Batcher<Out> {
             remote_sender,
             mode,
             buffer: Default::default(),
-            last_send: Instant::now(),
+            last_send: clock(),
             coord,
         }
     }
@@ -74,7 +85,7 @@ impl<Out: ExchangeData> Batcher<Out> {
         match self.mode {
             BatchMode::Adaptive(n, max_delay) => {
                 self.buffer.push(message);
-                let timeout_elapsed = self.last_send.elapsed() > max_delay.into();
+                let timeout_elapsed = clock().duration_since(self.last_send) > max_delay.into();
                 if self.buffer.len() >= n.get() || timeout_elapsed {
                     self.flush()
                 }
@@ -105,7 +116,7 @@ impl<Out: ExchangeData> Batcher<Out> {
             std::mem::swap(&mut self.buffer, &mut batch);
             let message = NetworkMessage::new_batch(batch, self.coord);
             self.remote_sender.send(message).unwrap();
-            self.last_send = Instant::now();
+            self.last_send = clock();
         }
     }
 
